@@ -89,7 +89,7 @@ theorem simulate_no_oob (hc : SafeOK G nTerms nRules T cert) (la : Int) :
         dsimp only
         rcases find_gotos_inR hc h (pr.lhs : Int) with ⟨st', hg⟩ | hg
         · rw [hg]; exact simulate_no_oob hc la n (goto_entry hc h hg)
-        · rw [hg]; exact simulate_no_oob hc la n (inR_zero hc)
+        · rw [hg]; intro hc'; cases hc'
       · simp only [hneg, if_false]
         obtain ⟨-, hin⟩ := shift_entry hc h hf (by omega) (by decide)
         rcases find_actions_inR hc hin la with ⟨v, hv⟩ | hv
